@@ -336,6 +336,10 @@ def fixed_cfgs():
         dict(base, model="npa", spaces=[sp, sp2], np_kind="power", conv=CONVS[1], seed=12),
         dict(base, model="matern", spaces=[mt], np_kind="amplitude", conv=CONVS[0], seed=13),
         dict(base, model="matern", spaces=[mt, mt2], np_kind="amplitude", conv=CONVS[1], seed=14),
+        # JAX only: every (kind, renormalize) combination of the Matern model not covered above
+        dict(base, model="matern", spaces=[mt], np_kind="power", conv=CONVS[0], seed=15),
+        dict(base, model="matern", spaces=[mt2], np_kind="power", renorm=True, conv=CONVS[1], seed=16),
+        dict(base, model="matern", spaces=[mt], np_kind="amplitude", renorm=True, conv=CONVS[0], seed=17),
     ]
 
 
@@ -360,6 +364,10 @@ def observe(cfg, which):
              "xi": xi.tolist(), "y": y.reshape(-1).tolist(), "namps": [a.tolist() for a in im.normalized_expanded()],
              "amps": [(a.tolist(), m.tolist(), float(v)) for (a, m, p, v) in im.amplitudes()],
              "mean_resp": L.reshape(-1, L.shape[-1]).mean(axis=0).tolist()}
+        if which == "jax" and cfg["model"] == "matern":
+            o["matern"] = [{"scl": float(a.scale(im.pos)), "ctf": float(a.cutoff(im.pos)), "slp": float(a.loglogslope(im.pos)),
+                            "k": np.asarray(a.grid.harmonic_grid.mode_lengths, dtype=float).tolist()}
+                           for a in im.jm.fluctuations]
         if which == "classic":
             o["own_total"] = float(im.cm.total_fluctuation.force(im.npos).asnumpy()) ** 2
             o["own_slice"] = [float(im.cm.slice_fluctuation(s).force(im.npos).asnumpy()) ** 2 for s in range(len(cfg["spaces"]))]
@@ -435,6 +443,19 @@ def direct_failures(o, other=None):
             w = float((rho[1:] * amp[1:] ** 2).sum())
             if rel(w, fls[s] ** 2 * vol ** 2) > TOL:
                 out.append(("normalisation", "sum m_k A_k^2 = %r but flu^2 V^2 = %r" % (w, fls[s] ** 2 * vol ** 2)))
+    # documented Matern parametrisation: amplitude (kind 'amplitude') resp. power (kind 'power') spectrum
+    # a / (1 + (k/b)^2)^(-c/4); un-renormalised amplitude = scale * sqrt(V) * spectrum, renormalised: same shape
+    for s, mp in enumerate(o.get("matern", [])):
+        amp, rho, vol = o["amps"][s]
+        amp = np.array(amp)
+        spec = (1.0 + (np.array(mp["k"]) / mp["ctf"]) ** 2) ** (mp["slp"] / 4.0)
+        if cfg["np_kind"] == "power":
+            spec = np.sqrt(spec)
+        want = mp["scl"] * np.sqrt(vol) * spec
+        if cfg["renorm"]:
+            want = want * (amp[1] / want[1])
+        if np.abs(amp[1:] - want[1:]).max() > TOL * max(1.0, np.abs(want[1:]).max()):
+            out.append(("matern_spectrum", "amplitude is not scale*sqrt(V)*(1+(k/cutoff)^2)^(slope/4) [%s kind]" % cfg["np_kind"]))
     # realised variance vs the model's own prediction
     if all(f is not None for f in fls) and azm == 0:
         if rel(o["tot"], fls[0] ** 2) > TOL:
@@ -605,7 +626,7 @@ class C28(C.Check):
             dist[k] = dist.get(k, 0) + 1
         res.coverage.update({
             "evaluations": len(checks), "distinct_nontrivial": distinct,
-            "rule": "configurations = 4 fixed (present in both APIs) + generated (non-parametric / Matern, amplitude / "
+            "rule": "configurations = fixed (4 present in both APIs, 8 classic-only: adjust_for_volume / scalar offset_std, 3 JAX-only Matern kinds) + generated (non-parametric / Matern, amplitude / "
                     "power, renormalised or not, 1-2 sub-domains, both Hartley conventions, random hyperparameter priors, "
                     "offsets and latent vectors); checks per configuration and implementation: field (exact grids), "
                     "total / slice / average variance from the exact linear response vs the model's formulas, variance "
